@@ -214,6 +214,24 @@ Theorem C18_failed_construction_not_registered :
 Proof. exact failed_construction_not_registered. Qed.
 Print Assumptions C18_failed_construction_not_registered.
 
+(* ------------------------------------------------------------------ clauses 2 + 5 + 6 together
+   an EXISTING parameter object offered to a map that already holds its key is
+   refused and nothing changes: the tree is the same, so the object is where
+   it was, keeps its parent and extended key, and that key resolves to it.
+   (An accepted re-add would make one object a member of two maps; the tree
+   model flags that [OOutside] and does not change the tree either.) *)
+Theorem C18_readd_duplicate_refused :
+  forall n root src dst p h ch,
+    get root src = Val p -> node_at root (psegs dst) = Some (Map h ch) -> In (pkey p) (map pkey ch) ->
+    step_root repaired n root (OReAdd src dst) = (root, ORaise ValueError).
+Proof. exact readd_duplicate_refused. Qed.
+Print Assumptions C18_readd_duplicate_refused.
+
+Theorem C18_readd_never_changes_the_tree :
+  forall n root src dst, fst (step_root repaired n root (OReAdd src dst)) = root.
+Proof. exact readd_never_changes_the_tree. Qed.
+Print Assumptions C18_readd_never_changes_the_tree.
+
 (* ------------------------------------------------------------------ the snapshot 13808df
    On the pinned snapshot three clauses were false ([step pinned] transcribes
    that code; each witness was replayed on it).  /repo has been repaired since
